@@ -1,8 +1,10 @@
 """C13 — data stores hold exactly what was written, record by record.
 
-Oracle: a dictionary model (completed / not-completed id -> text) driven by
-the same generated history, compared after every step with the live store and
-with a freshly opened read-only store on the same source.
+Oracle: a dictionary model (completed / not-completed id -> text, log name ->
+text) driven by the same generated history, compared after every step with the
+live store and with a freshly opened read-only store on the same source; at the
+end of a directory history the zipped directory is read back through
+ReadOnlyDataStoreZipped and compared with the same model.
 """
 
 from __future__ import annotations
@@ -22,24 +24,73 @@ LEVEL = "exploration"
 RULE = (
     "A case is a store kind (directory with a suffix / sqlite file), an initial mode and a history of 1-25 steps drawn from "
     "write, write_not_completed, write_log, drop_not_completed(id), drop_not_completed(), close+reopen(mode) over a pool of "
-    "related identifiers (a, ba, aa, ab, b, names equal to or containing the suffix text, with and without the format suffix). "
+    "related identifiers (a, ba, aa, ab, b, names equal to or containing the suffix text, with and without the format suffix; "
+    "about 40% of the pools add identifiers with interior dots: a.1, a.2, ba.1, g.1.x, g.1.y, ENSG01.2, A.FASTA, b.fa; not-completed "
+    "records of a directory store are also written under '<id>.json', the form the writer apps use). "
     "After every step the live store and a freshly opened read-only store are compared with the dictionary model: member id "
-    "sets, content of every member, md5 of every member, validate() counts, `in`. Non-trivial = a history with a completed "
-    "write of an id that is a proper suffix/prefix of another stored id, or a reopen after a drop; distinct = distinct case encodings."
+    "sets, content of every member, md5 of every member, validate() counts and 'Has log', `in`, len, and the log records "
+    "(`ds.logs` identifiers 'logs/<name>' and their text). After the last step of a directory history the directory is zipped and "
+    "ReadOnlyDataStoreZipped must list and read the same completed / not-completed / log records and checksums. Non-trivial = a "
+    "history with a completed write of an id that is a proper suffix/prefix of another stored id, or a reopen after a drop; "
+    "distinct = distinct case encodings."
 )
 ASSUMPTIONS = [
     "outcomes the documentation leaves open are not pinned: re-writing an existing completed id in overwrite mode may keep the old or store the new text; write_not_completed of an existing id in overwrite mode may keep or replace; completing a not-completed id in append mode may raise IOError (unchanged) or complete it. For these only the policy-free invariants are asserted (live == reopened, other ids untouched, content one of old/new, id in exactly one of completed / not completed, checksum matches content)",
-    "directory-store identifiers are file names: an id with or without the store's suffix names the same record; identifiers with other dots are not generated",
+    "directory-store identifiers are file names: an id with or without the store's suffix (exact case) names the same record, "
+    "as `__contains__` and `drop_not_completed` treat it (they append the suffix unless the id already ends with it); any other dotted ending "
+    "belongs to the identifier ('a.1' and 'a.2' are different records, 'b.fa' in a 'fasta' store is not 'b'). '<id>.json' passed to "
+    "write_not_completed names the not-completed record of <id> (what the writer apps pass). Identifiers ending in .json / .log / a "
+    "compression suffix are not generated for the other calls, and the store suffix is not appended to an id that already ends with it",
     "a sqlite store is unlocked before closing so that it can be reopened in overwrite mode (documented lock behaviour)",
+    "log records: log names end with '.log', contain no other dot and are unique per session (apply_to derives them from time and pid); after "
+    "write_log(name, text) `ds.logs` holds 'logs/<name>' reading back text, and logs of earlier sessions are never changed by any later "
+    "operation, in any mode (test_append_makes_logs: a separate instance adds a log). Left open: the text after writing the same name twice "
+    "in one session (old or new), and whether a sqlite store keeps an earlier log of the *same* session when a second name is written "
+    "(it holds one log row per session, sqlite_data_store.py `_write`: 'todo how to evaluate whether writing a new log?'; the directory "
+    "store keeps both). Read-only stores reject write_log",
+    "a zipped directory store is read with the archive made as the library's tests make it (shutil.make_archive with base_dir = directory "
+    "name); records are ASCII with '\\n' line ends, so the zipped reader's latin-1 decoding returns the same text",
 ]
 
 SUFFIXES = ["fasta", "fa", "txt"]
 STEMS = ["a", "ba", "aa", "ab", "b", "fab", "fasta", "xfasta", "fa", "a_fa", "axfa", "A", "BA", "txt1", "nc", "json1"]
+# identifiers with interior dots; related to the plain stems and to each other
+DOTTED = ["a.1", "a.2", "ba.1", "g.1.x", "g.1.y", "ENSG01.2", "A.FASTA", "b.fa"]
 SCRATCH = os.path.join(os.path.dirname(os.path.dirname(os.path.abspath(__file__))), ".scratch")
 
 
 def md5(text: str) -> str:
     return hashlib.md5(text.encode("utf8")).hexdigest()
+
+
+def api_ident(kind: str, suffix: str, stem: str, sfx) -> str:
+    """the identifier passed to the store: sfx False -> stem, True -> stem.<suffix>, 'json' -> <record>.json (directory store)"""
+    if sfx == "json" and kind == "dir":
+        return f"{model_key(kind, suffix, stem, False)}.json"
+    if sfx is True and not stem.endswith(f".{suffix}"):
+        return f"{stem}.{suffix}"
+    return stem
+
+
+def model_key(kind: str, suffix: str, stem: str, sfx) -> str:
+    """the key of the record in the dictionary model"""
+    if kind == "dir" and sfx == "json":
+        sfx = False
+    ident = api_ident(kind, suffix, stem, sfx)
+    if kind == "sqlite":
+        return ident  # identifiers are kept verbatim
+    ext = f".{suffix}"
+    return ident[: -len(ext)] if ident.endswith(ext) else ident
+
+
+def dotted_circumstance(kind: str, suffix: str, ident: str):
+    """circumstance tag of a directory-store identifier whose last dotted component is not the store's suffix"""
+    if kind != "dir" or "." not in ident:
+        return None
+    last = ident.rsplit(".", 1)[1]
+    if last == suffix or last in ("json", "log"):
+        return None
+    return "case-suffix" if last.lower() == suffix.lower() else "dotted-id"
 
 
 # -------------------------------------------------------------- generator
@@ -49,6 +100,8 @@ def histories(draw):
     suffix = draw(st.sampled_from(SUFFIXES))
     k = draw(st.integers(2, 5))
     pool = draw(st.lists(st.sampled_from(STEMS), min_size=k, max_size=k, unique=True))
+    n_dot = draw(st.sampled_from([0, 0, 0, 1, 2]))
+    pool = pool + draw(st.lists(st.sampled_from(DOTTED), min_size=n_dot, max_size=n_dot, unique=True))
     mode = draw(st.sampled_from(["w", "w", "a"]))
     n = draw(st.integers(1, 25))
     steps = []
@@ -58,15 +111,18 @@ def histories(draw):
     for _ in range(n):
         op = draw(
             st.sampled_from(
-                ["write"] * 6 + ["write_nc"] * 5 + ["write_log"] + ["drop_one"] * 2 + ["drop_all"] + ["reopen"] * 3
+                ["write"] * 6 + ["write_nc"] * 5 + ["write_log"] * 2 + ["drop_one"] * 2 + ["drop_all"] + ["reopen"] * 3
             )
         )
         if op in ("write", "write_nc", "drop_one", "write_log"):
             stem = draw(st.sampled_from(pool))
             with_sfx = draw(st.booleans())
-            mkey = (stem, with_sfx if kind == "sqlite" else None)
-            if op == "write_nc" and cur_mode == "w" and mkey in done and draw(st.integers(0, 9)) > 0:
-                op = "write"  # a not-completed write over a completed id is a known finding; keep it to ~10%
+            if op == "write_nc" and kind == "dir" and draw(st.integers(0, 3)) == 0:
+                with_sfx = "json"  # the form the writer apps use
+            mkey = model_key(kind, suffix, stem, with_sfx)
+            if op == "write_nc" and cur_mode == "w" and mkey in done and draw(st.integers(0, 19)) > 0:
+                op = "write"  # a not-completed write over a completed id is a known finding; keep it to ~5% of such draws
+                with_sfx = with_sfx is True
             if op == "write" and cur_mode != "r":
                 done.add(mkey)
             counter += 1
@@ -82,7 +138,7 @@ def histories(draw):
 
 # ---------------------------------------------------------------- execute
 class Store:
-    """thin adapter over the two store classes with model-level identifiers"""
+    """thin adapter over the store classes with model-level identifiers"""
 
     def __init__(self, kind, suffix, root):
         self.kind, self.suffix, self.root = kind, suffix, root
@@ -105,6 +161,13 @@ class Store:
         self.mode = mode
         return self.ds
 
+    def open_zipped(self, path):
+        from cogent3.app.data_store import ReadOnlyDataStoreZipped
+
+        self.ds = ReadOnlyDataStoreZipped(path, suffix=self.suffix)
+        self.mode = "r"
+        return self.ds
+
     def close(self):
         if self.ds is None:
             return
@@ -117,10 +180,7 @@ class Store:
 
     def key(self, stem, with_sfx):
         """model key and the identifier passed to the API"""
-        if self.kind == "dir":
-            return stem, (f"{stem}.{self.suffix}" if with_sfx else stem)
-        ident = f"{stem}.{self.suffix}" if with_sfx else stem
-        return ident, ident
+        return model_key(self.kind, self.suffix, stem, with_sfx), api_ident(self.kind, self.suffix, stem, with_sfx)
 
     def member_key(self, unique_id, completed):
         uid = str(unique_id)
@@ -131,9 +191,14 @@ class Store:
         return uid
 
 
+def log_name(stem: str, session: int) -> str:
+    """a log name as apply_to makes them: ends with .log, no other dot, not re-used by a later session"""
+    return f"run-{stem.replace('.', '_')}-s{session}.log"
+
+
 def snapshot(s: Soft, store: Store, ds, tag):
-    """(completed dict, not completed dict, md5 dict) as observed, or None"""
-    out = {"C": {}, "N": {}, "md5": {}}
+    """completed dict, not completed dict, md5 dict and log dict as observed, or None"""
+    out = {"C": {}, "N": {}, "md5": {}, "L": None}
     for label, attr in (("C", "completed"), ("N", "not_completed")):
         ok, members = s.call(f"{tag}/{attr}", lambda: list(getattr(ds, attr)))
         if not ok:
@@ -150,6 +215,19 @@ def snapshot(s: Soft, store: Store, ds, tag):
             if ok:
                 out["md5"][(label, k)] = h
         s.check(len(seen) == len(set(seen)), f"{tag}/duplicate-members", f"{attr}: {seen}")
+    ok, members = s.call(f"{tag}/logs", lambda: list(ds.logs))
+    if ok:
+        logs, seen = {}, []
+        for m in members:
+            uid = str(m.unique_id).replace("\\", "/")
+            seen.append(uid)
+            ok, txt = s.call(f"{tag}/logs/read", m.read)
+            if not ok:
+                break
+            logs[uid] = txt
+        else:
+            out["L"] = logs
+        s.check(len(seen) == len(set(seen)), f"{tag}/logs/duplicate-members", f"logs: {seen}")
     return out
 
 
@@ -164,6 +242,14 @@ def exec_history(case) -> Soft:
     return s
 
 
+def _merge(s: Soft, t: Soft):
+    have = {f.signature for f in s.failures}
+    for f in t.failures:
+        if f.signature not in have:
+            s.failures.append(f)
+            have.add(f.signature)
+
+
 def _run(s: Soft, case, root):
     kind = case["kind"]
     store = Store(kind, case["suffix"], root)
@@ -171,144 +257,201 @@ def _run(s: Soft, case, root):
     ok, ds = s.call(pre + "open", store.open, case["mode"])
     if not ok:
         return
-    C, N = {}, {}  # the dictionary model
+    C, N, L = {}, {}, {}  # the dictionary model: completed, not completed, logs
+    session = 0
+    session_logs = []  # log names written by the current session
     s.cls(kind, "mode:" + case["mode"])
-    related_write = reopen_after_drop = False
-    dropped = False
+    state = {"related_write": False, "reopen_after_drop": False, "dropped": False}
+    aborted = False
     try:
         for i, step in enumerate(case["steps"]):
-            op = step["op"]
-            mode = store.mode
-            before = (dict(C), dict(N))
-            open_keys = {}  # id -> text written, for ids whose outcome is policy-open in this step
-            what = f"step {i} {step} (mode {mode}, model C={sorted(C)} N={sorted(N)})"
-            if op in ("write", "write_nc", "write_log"):
+            # the clauses of one step are collected apart: a directory-store identifier with a dotted ending that is not the
+            # store's suffix is a circumstance of its own; whatever clause shows it first carries that tag (one root cause,
+            # one signature) and the history stops there, because the store and the model no longer name the same records
+            t = Soft(s.prefix)
+            circumstance = None
+            if step["op"] in ("write", "write_nc") and store.mode != "r":
                 key, ident = store.key(step["id"], step["sfx"])
-                if op == "write_log":
-                    ident = f"run-{step['id']}.log"
-                fn = {"write": ds.write, "write_nc": ds.write_not_completed, "write_log": ds.write_log}[op]
-                try:
-                    fn(unique_id=ident, data=step["text"])
-                    raised = None
-                except Exception as e:  # noqa: BLE001
-                    from vlib.core import raised_in_repo
-
-                    if not raised_in_repo(e):
-                        raise
-                    raised = e
-                if mode == "r":
-                    s.check(isinstance(raised, IOError) or (kind == "sqlite" and raised is not None), pre + f"{op}/readonly-accepted", f"{what}: {raised!r}")
-                elif op == "write_log":
-                    s.check(raised is None, pre + "write_log/raises", f"{what}: {raised!r}")
-                elif op == "write":
-                    if mode == "a" and key in C:
-                        s.check(isinstance(raised, IOError), pre + "write/append-overwrites-completed", f"{what}: raised {raised!r}")
-                    elif mode == "a" and key in N:
-                        if raised is None:
-                            C[key] = step["text"]
-                            N.pop(key)
-                        else:
-                            s.check(isinstance(raised, IOError), pre + "write/raises", f"{what}: {raised!r}")
-                    else:
-                        if s.check(raised is None, pre + "write/raises", f"{what}: {raised!r}"):
-                            if key in C:
-                                open_keys[key] = step["text"]  # old or new text
-                            else:
-                                C[key] = step["text"]
-                            N.pop(key, None)
-                            others = [k for k in set(C) | set(N) if k != key and (k.endswith(key) or k.startswith(key) or key.endswith(k) or key.startswith(k))]
-                            related_write = related_write or bool(others)
-                else:  # write_nc
-                    if mode == "a" and (key in C or key in N):
-                        # append mode never overwrites: the call is rejected (IOError) or ignored; the model stays unchanged
-                        s.check(raised is None or isinstance(raised, IOError), pre + "write_nc/append-raises", f"{what}: raised {raised!r}")
-                    elif s.check(raised is None, pre + "write_nc/raises", f"{what}: {raised!r}"):
-                        if key in C:
-                            s.cls("nc-over-completed")
-                            s.notes["nc_over_completed"] = True
-                        if key in C or key in N:
-                            open_keys[key] = step["text"]
-                        else:
-                            N[key] = step["text"]
-            elif op == "drop_one":
-                key, ident = store.key(step["id"], step["sfx"])
-                import sqlite3
-
-                ok, _ = s.call(pre + "drop_not_completed", lambda: ds.drop_not_completed(unique_id=ident), allowed=(IOError, sqlite3.OperationalError) if mode == "r" else ())
-                if mode != "r" and ok:
-                    N.pop(key, None)
-                    dropped = True
-                if mode == "r" and kind == "sqlite" and not ok:
-                    pass
-            elif op == "drop_all":
-                import sqlite3
-
-                ok, _ = s.call(pre + "drop_not_completed", ds.drop_not_completed, allowed=(IOError, sqlite3.OperationalError) if mode == "r" else ())
-                if mode != "r" and ok:
-                    N.clear()
-                    dropped = True
-            elif op == "reopen":
+                circumstance = dotted_circumstance(kind, case["suffix"], ident)
+                if step["op"] == "write_nc" and step["sfx"] == "json" and store.mode == "a" and key in C:
+                    # append mode, '<id>.json' while <id> is completed: the append guard looks the literal name up
+                    circumstance = circumstance or "append-nc-json-over-completed"
+            if circumstance:
+                s.cls(circumstance)
+            if step["op"] == "reopen":
                 ok, _ = s.call(pre + "close", store.close)
                 ok, ds = s.call(pre + "reopen", store.open, step["mode"])
                 if not ok:
                     return
-                if dropped:
-                    reopen_after_drop = True
-            # ---- invariants: live view and freshly opened read-only view
-            live = snapshot(s, store, ds, pre + "live")
-            other = Store(kind, case["suffix"], root)
-            ok, ro = s.call(pre + "open-readonly", other.open, "r")
-            fresh = snapshot(s, other, ro, pre + "reopened") if ok else None
-            if ok:
-                other.close()
-            for tag, snap in (("live", live), ("reopened", fresh)):
-                if snap is None:
-                    continue
-                _compare(s, pre + tag, snap, C, N, before, open_keys, what)
-            if live is not None and fresh is not None:
-                s.check(live["C"] == fresh["C"] and live["N"] == fresh["N"], pre + "live-vs-reopened", f"{what}: live C={live['C']} N={live['N']}; reopened C={fresh['C']} N={fresh['N']}")
-            # resolve policy-open outcomes from what the store now holds (persisted view)
-            ref = fresh or live
-            if ref is not None:
-                for k in open_keys:
-                    if k in ref["C"] and k not in ref["N"]:
-                        C[k] = ref["C"][k]
-                        N.pop(k, None)
-                    elif k in ref["N"] and k not in ref["C"]:
-                        N[k] = ref["N"][k]
-                        C.pop(k, None)
-            # membership probes
-            if live is not None:
-                for stem in {st_["id"] for st_ in case["steps"] if "id" in st_}:
-                    for with_sfx in (False, True):
-                        key, ident = store.key(stem, with_sfx)
-                        if kind == "dir" and not with_sfx:
-                            continue  # the directory store documents membership by file name
-                        ok, got = s.call(pre + "contains", lambda: ident in ds)
-                        if ok and key not in open_keys:
-                            # the directory store documents `in` for completed records; sqlite lists every member
-                            want_in = key in C or (kind == "sqlite" and key in N)
-                            s.eq(bool(got), want_in, pre + "contains", f"{what}: {ident!r} in store")
-                ok, val = s.call(pre + "validate", lambda: ds.validate().to_dict())
-                if ok:
-                    cols = val.get("Value", val)
-                    vals = list(cols.values()) if isinstance(cols, dict) else []
-                    cond = list(val.get("Condition", {}).values()) if isinstance(val.get("Condition"), dict) else []
-                    rec = dict(zip(cond, vals))
-                    s.check(rec.get("Num md5sum incorrect", 0) == 0 and rec.get("Num md5sum missing", 0) == 0, pre + "validate", f"{what}: {rec}")
-                ok, n = s.call(pre + "len", len, ds)
-                if ok and not open_keys:
-                    s.eq(n, len(C) + len(N), pre + "len", what)
+                session += 1
+                session_logs = []
+                if state["dropped"]:
+                    state["reopen_after_drop"] = True
+            _step(s, t, case, store, ds, root, i, step, C, N, L, session, session_logs, state)
+            if circumstance and t.failures:
+                f = t.failures[0]
+                tail = "completed-record-not-protected" if circumstance.startswith("append") else "record-not-held-under-its-identifier"
+                s.fail(f"{pre}{circumstance}/{tail}", f"first shown by {f.signature}: {f.message}")
+                aborted = True
+                break
+            _merge(s, t)
+        if kind == "dir" and not aborted:
+            _zipped(s, case, store, root, C, N, L)
     finally:
         try:
             store.close()
         except Exception:  # noqa: BLE001
             pass
-    s.nontrivial = (related_write or reopen_after_drop) and len(case["steps"]) >= 3
-    if related_write:
+    s.nontrivial = (state["related_write"] or state["reopen_after_drop"]) and len(case["steps"]) >= 3
+    if state["related_write"]:
         s.cls("related-id-write")
-    if reopen_after_drop:
+    if state["reopen_after_drop"]:
         s.cls("reopen-after-drop")
+
+
+def _step(s, t: Soft, case, store, ds, root, i, step, C, N, L, session, session_logs, state):
+    """one operation (a reopen has already been done by the caller) and the invariants after it; clauses go to `t`"""
+    kind = case["kind"]
+    pre = f"{kind}/"
+    op = step["op"]
+    mode = store.mode
+    before = (dict(C), dict(N))
+    open_keys = {}  # id -> text written, for ids whose outcome is policy-open in this step
+    open_logs = {}  # log name -> text written, same name written twice in one session
+    maybe_gone = set()  # sqlite: earlier logs of the same session after a log under another name
+    what = f"step {i} {step} (mode {mode}, model C={sorted(C)} N={sorted(N)} L={sorted(L)})"
+    if op in ("write", "write_nc", "write_log"):
+        key, ident = store.key(step["id"], step["sfx"])
+        if op == "write_log":
+            ident = log_name(step["id"], session)
+        fn = {"write": ds.write, "write_nc": ds.write_not_completed, "write_log": ds.write_log}[op]
+        try:
+            fn(unique_id=ident, data=step["text"])
+            raised = None
+        except Exception as e:  # noqa: BLE001
+            from vlib.core import raised_in_repo
+
+            if not raised_in_repo(e):
+                raise
+            raised = e
+        if mode == "r":
+            t.check(isinstance(raised, IOError) or (kind == "sqlite" and raised is not None), pre + f"{op}/readonly-accepted", f"{what}: {raised!r}")
+        elif op == "write_log":
+            if t.check(raised is None, pre + "write_log/raises", f"{what}: {raised!r}"):
+                s.cls("log-write")
+                if ident in L:
+                    open_logs[ident] = step["text"]  # old or new text
+                else:
+                    L[ident] = step["text"]
+                if kind == "sqlite":
+                    maybe_gone.update(n for n in session_logs if n != ident)
+                if ident not in session_logs:
+                    session_logs.append(ident)
+        elif op == "write":
+            if mode == "a" and key in C:
+                t.check(isinstance(raised, IOError), pre + "write/append-overwrites-completed", f"{what}: raised {raised!r}")
+            elif mode == "a" and key in N:
+                if raised is None:
+                    C[key] = step["text"]
+                    N.pop(key)
+                else:
+                    t.check(isinstance(raised, IOError), pre + "write/raises", f"{what}: {raised!r}")
+            else:
+                if t.check(raised is None, pre + "write/raises", f"{what}: {raised!r}"):
+                    if key in C:
+                        open_keys[key] = step["text"]  # old or new text
+                    else:
+                        C[key] = step["text"]
+                    N.pop(key, None)
+                    others = [k for k in set(C) | set(N) if k != key and (k.endswith(key) or k.startswith(key) or key.endswith(k) or key.startswith(k))]
+                    state["related_write"] = state["related_write"] or bool(others)
+        else:  # write_nc
+            if mode == "a" and (key in C or key in N):
+                # append mode never overwrites: the call is rejected (IOError) or ignored; the model stays unchanged
+                t.check(raised is None or isinstance(raised, IOError), pre + "write_nc/append-raises", f"{what}: raised {raised!r}")
+            elif t.check(raised is None, pre + "write_nc/raises", f"{what}: {raised!r}"):
+                if key in C:
+                    s.cls("nc-over-completed")
+                    s.notes["nc_over_completed"] = True
+                if key in C or key in N:
+                    open_keys[key] = step["text"]
+                else:
+                    N[key] = step["text"]
+    elif op == "drop_one":
+        key, ident = store.key(step["id"], step["sfx"])
+        import sqlite3
+
+        ok, _ = t.call(pre + "drop_not_completed", lambda: ds.drop_not_completed(unique_id=ident), allowed=(IOError, sqlite3.OperationalError) if mode == "r" else ())
+        if mode != "r" and ok:
+            N.pop(key, None)
+            state["dropped"] = True
+    elif op == "drop_all":
+        import sqlite3
+
+        ok, _ = t.call(pre + "drop_not_completed", ds.drop_not_completed, allowed=(IOError, sqlite3.OperationalError) if mode == "r" else ())
+        if mode != "r" and ok:
+            N.clear()
+            state["dropped"] = True
+    # ---- invariants: live view and freshly opened read-only view
+    live = snapshot(t, store, ds, pre + "live")
+    other = Store(kind, case["suffix"], root)
+    ok, ro = t.call(pre + "open-readonly", other.open, "r")
+    fresh = snapshot(t, other, ro, pre + "reopened") if ok else None
+    if ok:
+        other.close()
+    for tag, snap in (("live", live), ("reopened", fresh)):
+        if snap is None:
+            continue
+        _compare(t, pre + tag, snap, C, N, before, open_keys, what)
+        if snap["L"] is not None:
+            _compare_logs(t, pre + tag, snap["L"], L, open_logs, maybe_gone, what)
+    if live is not None and fresh is not None:
+        t.check(live["C"] == fresh["C"] and live["N"] == fresh["N"], pre + "live-vs-reopened", f"{what}: live C={live['C']} N={live['N']}; reopened C={fresh['C']} N={fresh['N']}")
+        if live["L"] is not None and fresh["L"] is not None:
+            t.eq(live["L"], fresh["L"], pre + "logs/live-vs-reopened", what)
+    # resolve policy-open outcomes from what the store now holds (persisted view)
+    ref = fresh or live
+    if ref is not None:
+        for k in open_keys:
+            if k in ref["C"] and k not in ref["N"]:
+                C[k] = ref["C"][k]
+                N.pop(k, None)
+            elif k in ref["N"] and k not in ref["C"]:
+                N[k] = ref["N"][k]
+                C.pop(k, None)
+        if ref["L"] is not None:
+            for n in open_logs:
+                if ref["L"].get(f"logs/{n}") in (L[n], open_logs[n]):
+                    L[n] = ref["L"][f"logs/{n}"]
+            for n in maybe_gone:
+                if f"logs/{n}" not in ref["L"]:
+                    L.pop(n, None)
+                    if n in session_logs:
+                        session_logs.remove(n)
+    # membership probes
+    if live is not None:
+        for stem in sorted({st_["id"] for st_ in case["steps"] if "id" in st_}):
+            for with_sfx in (False, True):
+                key, ident = store.key(stem, with_sfx)
+                if kind == "dir" and not ident.endswith("." + case["suffix"]):
+                    continue  # the directory store documents membership by file name
+                ok, got = t.call(pre + "contains", lambda: ident in ds)
+                if ok and key not in open_keys:
+                    # the directory store documents `in` for completed records; sqlite lists every member
+                    want_in = key in C or (kind == "sqlite" and key in N)
+                    t.eq(bool(got), want_in, pre + "contains", f"{what}: {ident!r} in store")
+        ok, val = t.call(pre + "validate", lambda: ds.validate().to_dict())
+        if ok:
+            cols = val.get("Value", val)
+            vals = list(cols.values()) if isinstance(cols, dict) else []
+            cond = list(val.get("Condition", {}).values()) if isinstance(val.get("Condition"), dict) else []
+            rec = dict(zip(cond, vals))
+            t.check(rec.get("Num md5sum incorrect", 0) == 0 and rec.get("Num md5sum missing", 0) == 0, pre + "validate", f"{what}: {rec}")
+            if "Has log" in rec and not open_logs and not maybe_gone and live["L"] is not None:
+                t.eq(bool(rec["Has log"]), bool(L), pre + "validate-has-log", f"{what}: {rec}")
+        ok, n = t.call(pre + "len", len, ds)
+        if ok and not open_keys:
+            t.eq(n, len(C) + len(N), pre + "len", what)
 
 
 def _compare(s: Soft, tag, snap, C, N, before, open_keys, what):
@@ -336,22 +479,86 @@ def _compare(s: Soft, tag, snap, C, N, before, open_keys, what):
                 s.check(h == md5(snap[label][k]), f"{tag}/open-outcome/md5", f"{what}: {k!r} md5 {h!r} does not match its content")
 
 
+def _compare_logs(s: Soft, tag, got, L, open_logs, maybe_gone, what):
+    """got: {'logs/<name>': text} as listed by ds.logs"""
+    want = {f"logs/{n}": txt for n, txt in L.items()}
+    optional = {f"logs/{n}" for n in maybe_gone}
+    missing = sorted(u for u in want if u not in got and u not in optional)
+    extra = sorted(u for u in got if u not in want)
+    if not s.check(not missing and not extra, f"{tag}/logs/membership", f"{what}: logs listed {sorted(got)}, model {sorted(want)} (optional {sorted(optional)})"):
+        return
+    for n, txt in L.items():
+        u = f"logs/{n}"
+        if u not in got:
+            continue
+        if n in open_logs:
+            s.check(got[u] in (txt, open_logs[n]), f"{tag}/logs/open-outcome/content", f"{what}: log {n!r} holds {got[u]!r}, neither old {txt!r} nor new {open_logs[n]!r}")
+        else:
+            s.eq(got[u], txt, f"{tag}/logs/content", f"{what}: log {n!r}")
+
+
+def _zipped(s: Soft, case, store, root, C, N, L):
+    """read-side differential: the zipped directory store lists and reads what the model holds"""
+    if not os.path.isdir(store.source):
+        return
+    pre = "dir/zip/"
+    path = shutil.make_archive(base_name=os.path.join(root, "store"), format="zip", root_dir=root, base_dir="store")
+    z = Store("dir", case["suffix"], root)
+    ok, zs = s.call(pre + "open", z.open_zipped, path)
+    if not ok:
+        return
+    s.cls("zip")
+    # circumstance of its own: the checksum files (md5/<name>.txt) of a store whose suffix is 'txt'
+    md5_dir = os.path.join(store.source, "md5")
+    circumstance = "txt-suffix" if case["suffix"] == "txt" and os.path.isdir(md5_dir) and os.listdir(md5_dir) else None
+    if circumstance:
+        s.cls("zip-" + circumstance)
+        t = Soft(s.prefix)
+        _zipped_clauses(t, case, z, zs, C, N, L)
+        if t.failures:
+            f = t.failures[0]
+            s.fail(f"{pre}{circumstance}/checksum-files-listed-as-records", f"first shown by {f.signature}: {f.message}")
+        return
+    _zipped_clauses(s, case, z, zs, C, N, L)
+
+
+def _zipped_clauses(s: Soft, case, z, zs, C, N, L):
+    pre = "dir/zip/"
+    what = f"zipped store after {len(case['steps'])} steps (model C={sorted(C)} N={sorted(N)} L={sorted(L)})"
+    snap = snapshot(s, z, zs, pre[:-1])
+    if snap is None:
+        return
+    _compare(s, pre[:-1], snap, C, N, (C, N), {}, what)
+    if snap["L"] is not None:
+        _compare_logs(s, pre[:-1], snap["L"], L, {}, set(), what)
+    ok, n = s.call(pre + "len", len, zs)
+    if ok:
+        s.eq(n, len(C) + len(N), pre + "len", what)
+    for k in sorted(C):
+        ident = f"{k}.{case['suffix']}"
+        ok, got = s.call(pre + "contains", lambda: ident in zs)
+        if ok:
+            s.eq(bool(got), True, pre + "contains", f"{what}: {ident!r} in zipped store")
+
+
 SUBS = [
     Sub("histories", exec_history, strategy=histories(), quick=1200, thorough=96_000, shards_quick=16),
 ]
+
 
 def _kp_nc_over_completed(case, sig, msg):
     """the history writes a not-completed record for an id that is completed at that moment, in overwrite mode"""
     done = set()
     mode = case["mode"]
+    kind, suffix = case["kind"], case["suffix"]
     for st_ in case["steps"]:
         op = st_["op"]
         if op == "reopen":
             mode = st_["mode"]
         elif op == "write" and mode != "r":
-            done.add((st_["id"], st_["sfx"] if case["kind"] == "sqlite" else None))
+            done.add(model_key(kind, suffix, st_["id"], st_["sfx"]))
         elif op == "write_nc" and mode == "w":
-            if (st_["id"], st_["sfx"] if case["kind"] == "sqlite" else None) in done:
+            if model_key(kind, suffix, st_["id"], st_["sfx"]) in done:
                 return True
     return False
 
@@ -366,8 +573,8 @@ FUZZ = {
 }
 
 META = {
-    "technique": "Hypothesis-generated operation histories over related identifiers against a dictionary model, with a live-vs-reopened differential after every step",
-    "level_text": "Each run drives about a thousand histories of up to 25 store operations (both store kinds, all modes, close/reopen) over identifier pools built so that ids are suffixes/prefixes of each other or contain the suffix text, and after every single step compares membership, content and checksum of every record with a plain dictionary model, on the live object and on a freshly opened read-only store.",
-    "level_note": "Outcomes the documentation leaves open are checked only for policy-free invariants (see assumptions). Zipped read-only stores and in-memory sqlite are not driven.",
+    "technique": "Hypothesis-generated operation histories over related identifiers against a dictionary model, with a live-vs-reopened differential after every step and a zipped read-back at the end",
+    "level_text": "Each run drives about a thousand histories of up to 25 store operations (both store kinds, all modes, close/reopen) over identifier pools built so that ids are suffixes/prefixes of each other, contain the suffix text or carry interior dots, and after every single step compares membership, content and checksum of every record and the log records with a plain dictionary model, on the live object and on a freshly opened read-only store; the final directory is also read back through the zipped read-only store.",
+    "level_note": "Outcomes the documentation leaves open are checked only for policy-free invariants (see assumptions): overwrite-mode rewrites, a second log name within one sqlite session. In-memory sqlite, compressed members, non-ASCII record text and log names re-used across sessions are not driven.",
     "design_ref": "DESIGN.md section 1, C13",
 }
